@@ -22,7 +22,7 @@
    not collected, handles survive removal, recreated children start from zero, sequential histories. *)
 Require Import PV.Base.Prelude PV.Model.Conc PV.Model.VecConc.
 Require Import PV.Proofs.VecConcBase PV.Proofs.VecConcLin PV.Proofs.VecConcFacts PV.Proofs.VecConcRT.
-Require Import PV.Spec.SpecC10 PV.Proofs.VecConcStrict PV.Proofs.VecConcSpec PV.Proofs.VecConcSpec2.
+Require Import PV.Spec.SpecC10 PV.Proofs.VecConcStrict PV.Proofs.VecConcSpec PV.Proofs.VecConcSpec2 PV.Proofs.VecConcSpec3.
 From Coq Require Import Sorted Permutation.
 Open Scope N_scope.
 
@@ -188,11 +188,12 @@ Proof. exact (conj (classify_strict nl es) (conj (classify_known nl es) (classif
        unless a successful remove of the key / a reset may be ordered in between.
    PROVED IN FULL for scenarios whose increments are not distinct powers of two ([c10_relaxed_spec_of_validated_undecodable]): there
    the spec has no value-decoding clause and no search.
+   ALSO PROVED ([c10_relaxed_spec_of_validated_partial3], Proofs/VecConcSpec3.v): the remaining conjuncts of [coll_ok] - "shown" (a
+   shown key was requested before the collection returned; value < 2^63; every decoded bit is an update for exactly that key invoked
+   before the collection returned; no bit outside the scenario's increments) and "recreated-is-fresh" - from the invariant "a child id
+   belongs to one key for ever and never re-enters the map once removed" ([c10_child_id_one_key], [c10_child_id_never_returns]).
+   [proved_clauses3] is ALL of the spec except the search: [c10_relaxed_spec_of_validated_is_search].
    MISSING for the full statement, precisely:
-     (a) in [coll_ok], the conjunct "shown" (a shown key was requested before the collection returned; value < 2^63; every decoded bit
-         is an update for exactly that key invoked before the collection returned; no bit outside the scenario's increments) and the
-         conjunct "recreated-is-fresh" - both need, on top of [read_value_bits] (proved), that a child id belongs to one key for ever
-         and never re-enters the map once removed;
      (b) "lin_search false does not answer NotFound": needs lin_exists for the relaxed action system from the ghost log (a simulation
          of the spec's sequential map, thread-local handle / snapshot, and the placement of the end-of-reads action); the exactness of
          NotFound is proved (c10_strict_search_exact / dfs_notfound_exact), so no budget clause would be needed.
@@ -209,6 +210,28 @@ Proof. exact (relaxed_spec_of_validated_undecodable nl nth es). Qed.
 Theorem c10_proved_clauses_are_spec_conjuncts nl es :
   spec_c10_relaxed nl es = true -> incs_ok (fst (extract es)) = true -> proved_clauses2 nl es = true.
 Proof. exact (relaxed_spec_implies_proved_clauses2 nl es). Qed.
+
+(* a child id belongs to one key for ever and never re-enters the map once it has left it (reachable states) *)
+Theorem c10_child_id_one_key nl tr s k1 k2 c : vrun (vinit nl) tr = Some s ->
+  In (AGet k1, RChild c) (chron s) -> In (AGet k2, RChild c) (chron s) -> k1 = k2.
+Proof. intros H. exact (child_id_one_key nl tr s (vrun_reach nl tr s H) k1 k2 c). Qed.
+Theorem c10_child_id_never_returns nl tr s L1 L2 c : vrun (vinit nl) tr = Some s ->
+  chron s = L1 ++ L2 -> c < a_next (arun ainit L1) -> ~ In c (ids (arun ainit L1)) -> ~ In c (ids (g_abs s)).
+Proof. intros H. exact (child_id_never_returns nl tr s (vrun_reach nl tr s H) L1 L2 c). Qed.
+
+(* validated trace => every part of the executable relaxed spec except the search (proved_clauses3 = base_ok) *)
+Theorem c10_relaxed_spec_of_validated_partial3 nl nth es :
+  vcheck nl nth es = true -> in_domain nth es = true -> proved_clauses3 nl es = true.
+Proof. exact (relaxed_spec_of_validated_partial3 nl nth es). Qed.
+Theorem c10_proved_clauses3_are_spec_conjuncts nl es : spec_c10_relaxed nl es = true -> proved_clauses3 nl es = true.
+Proof. exact (relaxed_spec_implies_proved_clauses3 nl es). Qed.
+(* what remains is exactly the search *)
+Theorem c10_relaxed_spec_of_validated_is_search nl nth es :
+  vcheck nl nth es = true -> in_domain nth es = true -> spec_c10_relaxed nl es = search_ok false nl (fst (extract es)).
+Proof. exact (relaxed_spec_of_validated_is_search nl nth es). Qed.
+Theorem c10_relaxed_spec_of_validated_if_not_refuted nl nth es :
+  vcheck nl nth es = true -> in_domain nth es = true -> lin_search false nl (fst (extract es)) <> NotFound -> spec_c10_relaxed nl es = true.
+Proof. exact (relaxed_spec_of_validated_if_not_refuted nl nth es). Qed.
 
 (* a generated (real) trace is in the domain; on it the whole relaxed spec also evaluates to true *)
 Example c10_race_in_domain :
@@ -319,3 +342,9 @@ Print Assumptions c10_race_in_domain.
 Print Assumptions c10_race_validated.
 Print Assumptions c10_remove_recreate_validated.
 Print Assumptions c10_values_not_atomic_snapshot.
+Print Assumptions c10_child_id_one_key.
+Print Assumptions c10_child_id_never_returns.
+Print Assumptions c10_relaxed_spec_of_validated_partial3.
+Print Assumptions c10_proved_clauses3_are_spec_conjuncts.
+Print Assumptions c10_relaxed_spec_of_validated_is_search.
+Print Assumptions c10_relaxed_spec_of_validated_if_not_refuted.
